@@ -4,10 +4,12 @@ from fractions import Fraction
 
 from harness import dtwgen
 
-COQ_FILES = ["theories/Dba.v", "props/C12.v"]
+COQ_FILES = ["theories/Dba.v", "theories/DbaDtw.v", "props/C12.v"]
 THEOREMS = [("DVProps.C12", n) for n in ("C12_mean_in_range", "C12_mean_minimises",
                                          "C12_update_never_worsens_path_cost",
-                                         "C12_table_cost_is_sum_over_aligned_pairs", "C12_zero_cost_fixed_point")]
+                                         "C12_table_cost_is_sum_over_aligned_pairs", "C12_zero_cost_fixed_point",
+                                         "C12_step_never_worsens_sum_of_dtw",
+                                         "C12_warping_path_covers_every_position")]
 TRUSTED_BASE = [
     "Coq 8.16.1 kernel; standard-library real numbers (axioms as reported by Print Assumptions)",
     "dtw_barycenter.dba / dtw_dba_* are hand-modelled as 'association table + per-position mean' (Dba.v); the paths "
@@ -22,7 +24,7 @@ RULE = ("collections of 1..5 series (equal/unequal length, ndim 1..2, list or ma
         "result == per-position mean over the model's optimal paths (Python), within the value range of the selected "
         "series, unchanged when unselected series are replaced, sum of squared DTW distances (extracted model, exact "
         "rational scaling) does not increase, identical series are a fixed point, dba_loop makes <= max_it steps")
-GUARD = "psi, max_step, max_dist off; penalty off for the Python engine (F11)"
+GUARD = "psi, max_step, max_dist off"
 
 SITES = ["py.dba", "c.dba", "c.dba_loop", "py.dba_loop"]
 
@@ -49,7 +51,7 @@ def gen_cases(rng, tier):
         mask = [rng.random() < 0.7 for _ in range(ns)]
         if not any(mask):
             mask[rng.randrange(ns)] = True
-        st = {"window": rng.choice([None, None, 1, 2, 3]), "penalty": None if site.startswith("py.") else rng.choice([None, None, 1]),
+        st = {"window": rng.choice([None, None, 1, 2, 3]), "penalty": rng.choice([None, None, 1]),
               "psi": None, "max_step": None, "max_length_diff": None, "inner_dist": "squared euclidean"}
         other = [dtwgen.rand_series(rng, len(s), nd, lo=-2, hi=2) for s in series]
         cases.append({"site": site, "series": series, "c": c, "mask": mask, "ndim": nd, "settings": st,
